@@ -342,7 +342,7 @@ func TestC13Rules(t *testing.T) {
 	rapid.Check(t, func(rt *rapid.T) {
 		g := gen.NewG(rt, gen.Cfg{MaxDepth: 3, MaxOps: 4, JoinDepth: 2, Lets: true, Compilable: true})
 		prog := g.Program()
-		params := rapid.SampledFrom(benignParams).Draw(rt, "params")
+		params := rapid.SampledFrom(append(append([]map[string]string{}, benignParams...), map[string]string{"L1": "", "a": "", "n": " "}, map[string]string{"k": "", "T": ""})).Draw(rt, "params")
 		basePr := gen.Print(prog)
 		base := gen.Layout(basePr, g.Seps(len(basePr.Toks))).Src
 		st.Eval()
